@@ -64,11 +64,10 @@ def Img.group (c : Img) (i : Nat) : Array Dec :=
     let y := i / c.xsize
     c.groups.getD (c.entropy.getD ((y / 2 ^ c.prefixBits) * VP8L.subSize c.xsize c.prefixBits + x / 2 ^ c.prefixBits) 0) #[]
 
-/-- one step of the pixel loop at pixel index `i` (`rev` holds the `i` pixels decoded so far):
-    the new state, or `none` for an invalid stream -/
-def step (c : Img) (i : Nat) (rev : List Nat) (cache : Array Nat) (bits : List Nat) :
+/-- one step of the pixel loop at pixel index `i` with the group `g` selected for that pixel (`rev`
+    holds the `i` pixels decoded so far): the new state, or `none` for an invalid stream -/
+def stepG (g : Array Dec) (xsize n cacheBits : Nat) (i : Nat) (rev : List Nat) (cache : Array Nat) (bits : List Nat) :
     Option (Nat × List Nat × Array Nat × List Nat) :=
-  let g := c.group i
   match (g.getD 0 noDec) bits with
   | none => none
   | some (s, bits) =>
@@ -83,7 +82,7 @@ def step (c : Img) (i : Nat) (rev : List Nat) (cache : Array Nat) (bits : List N
       | none => none
       | some (a, bits) =>
         let p := a * 2 ^ 24 + r * 2 ^ 16 + s * 2 ^ 8 + bl
-        some (i + 1, p :: rev, cacheInsert c.cacheBits cache p, bits)
+        some (i + 1, p :: rev, cacheInsert cacheBits cache p, bits)
     else if s < 256 + 24 then
       match prefixValue (s - 256) bits with
       | none => none
@@ -94,17 +93,22 @@ def step (c : Img) (i : Nat) (rev : List Nat) (cache : Array Nat) (bits : List N
       match prefixValue ds bits with
       | none => none
       | some (dcode, bits) =>
-        let dist := VP8L.distanceOf c.xsize dcode
-        if dist > i ∨ i + len > c.n then none
+        let dist := VP8L.distanceOf xsize dcode
+        if dist > i ∨ i + len > n then none
         else
-          let (rev, cache) := copyBack c.cacheBits dist len rev cache
+          let (rev, cache) := copyBack cacheBits dist len rev cache
           some (i + len, rev, cache, bits)
     else
-      if c.cacheBits = 0 then none
+      if cacheBits = 0 then none
       else if s - (256 + 24) ≥ cache.size then none
       else
         let p := cache.getD (s - (256 + 24)) 0
-        some (i + 1, p :: rev, cacheInsert c.cacheBits cache p, bits)
+        some (i + 1, p :: rev, cacheInsert cacheBits cache p, bits)
+
+/-- one step of the pixel loop of the image `c` -/
+def step (c : Img) (i : Nat) (rev : List Nat) (cache : Array Nat) (bits : List Nat) :
+    Option (Nat × List Nat × Array Nat × List Nat) :=
+  stepG (c.group i) c.xsize c.n c.cacheBits i rev cache bits
 
 /-- the pixel loop: until `n` pixels are there; every step produces at least one pixel, so `n`
     steps of fuel always suffice -/
